@@ -2,6 +2,7 @@
    GENERATED from Properties/src/C12.props by tools/mkprops.py; property theorems only. *)
 From SP Require Import Model.Syntax Model.Scanner.
 From SP Require Import Proofs.PegP Proofs.SyntaxP Proofs.ParseP.
+From SP Require Import Proofs.NumP Proofs.RangeSynP Proofs.OpSynP Proofs.BlockSynP Proofs.RejectP.
 
 (* an accepted block is consumed to its very end: nothing is left unparsed *)
 Theorem C12_no_trailing_text :
@@ -76,3 +77,47 @@ Example C12_ex :
   /\ template_parse [123; 110; 111; 112; 101; 125]%N = Err
   /\ template_parse [123; 117; 112; 112; 101; 114]%N = Err.
 Proof. vm_compute. repeat split. Qed.
+
+(* EVERY integer, however large: its decimal spelling is read as that integer when it fits
+   isize and refused otherwise -- never replaced by another value *)
+Theorem C12_numeral_outside_isize_is_refused :
+  forall (z : Z), parse_isize (print_Z z) = if in_isize z then Some z else None.
+Proof. exact parse_isize_print_gen. Qed.
+Check C12_numeral_outside_isize_is_refused :
+  forall (z : Z), parse_isize (print_Z z) = if in_isize z then Some z else None.
+Print Assumptions C12_numeral_outside_isize_is_refused.
+
+Theorem C12_numeral_outside_usize_is_refused :
+  forall (n : N), parse_usize (print_N n) = if N.leb n usize_max then Some n else None.
+Proof. exact parse_usize_print_gen. Qed.
+Check C12_numeral_outside_usize_is_refused :
+  forall (n : N), parse_usize (print_N n) = if N.leb n usize_max then Some n else None.
+Print Assumptions C12_numeral_outside_usize_is_refused.
+
+(* every range shape with ANY integer bounds: the grammar reads it, and the converter answers
+   the range when all bounds fit and a parse error otherwise (conv_range) *)
+Theorem C12_range_with_a_bound_out_of_range_is_refused :
+  forall (r : range) (rest : str), op_stops rest ->
+  exists k, run r_range_spec false (print_range r ++ rest) = Some (print_range r, [k], rest)
+            /\ parse_range_spec k = conv_range r.
+Proof. exact range_spec_reads. Qed.
+Check C12_range_with_a_bound_out_of_range_is_refused :
+  forall (r : range) (rest : str), op_stops rest ->
+  exists k, run r_range_spec false (print_range r ++ rest) = Some (print_range r, [k], rest)
+            /\ parse_range_spec k = conv_range r.
+Print Assumptions C12_range_with_a_bound_out_of_range_is_refused.
+
+(* for ANY pipeline of the regex-free operations (map included), any arguments and ANY
+   numbers: the printed block is accepted exactly when every index, bound and width is inside
+   the machine range, and then as exactly that pipeline; otherwise it is a parse error *)
+Theorem C12_block_accepted_iff_numbers_in_range :
+  forall (dbg : bool) (ops : list op), forallb shape_top ops = true ->
+  parse_template (123 :: (if dbg then [33] else []) ++ print_pipe print_op ops ++ [125])%N
+  = if forallb printable ops then Ok (ops, dbg) else Err.
+Proof. exact printed_block_accepted_iff_in_range. Qed.
+Check C12_block_accepted_iff_numbers_in_range :
+  forall (dbg : bool) (ops : list op), forallb shape_top ops = true ->
+  parse_template (123 :: (if dbg then [33] else []) ++ print_pipe print_op ops ++ [125])%N
+  = if forallb printable ops then Ok (ops, dbg) else Err.
+Print Assumptions C12_block_accepted_iff_numbers_in_range.
+
